@@ -35,6 +35,13 @@ pub enum Ev {
     Save { path: String },
     /// The 1000 ms idle timer fires before the next message.
     Idle,
+    /// The folder's `oal.toml` is rewritten on disk (by hand, by a checkout) to name another
+    /// main module. A server learns of it when the folder is announced again; nothing is
+    /// compared before that.
+    ConfigOnDisk { main: String },
+    /// `didOpen` for a document that is open already (some editors do so after a language-mode
+    /// change): the text given replaces the buffer, and the next `didClose` closes it.
+    Reopen { path: String, text: String },
     /// A notification every editor sends and this server has no handler for (`didSave`,
     /// `$/cancelRequest`, `$/setTrace`, `didChangeWatchedFiles`, `didChangeConfiguration`):
     /// nothing may change.
@@ -597,6 +604,10 @@ pub struct Exec<'w> {
     /// the disk changed behind the server's back and no notification has reached it since:
     /// its view may legitimately lag, so nothing is compared until one has
     pub external_pending: bool,
+    /// `oal.toml` changed on disk and the folder has not been announced again since
+    pub config_pending: bool,
+    /// the main module the first folder's `oal.toml` names at the moment
+    pub main_now: String,
     /// modules that exist on disk but cannot be read at the moment (a transient read fault):
     /// a server that read one before still has its text, a fresh one cannot get it, so the
     /// two are only compared again once the module is readable and a notification went by
@@ -630,6 +641,8 @@ impl<'w> Exec<'w> {
         Exec {
             world,
             external_pending: false,
+            config_pending: false,
+            main_now: "main.oal".into(),
             unreadable: BTreeSet::new(),
             pending_reqs: Vec::new(),
             burst_left: 0,
@@ -760,7 +773,7 @@ impl<'w> Exec<'w> {
         if self.violation.is_some() || self.discarded.is_some() || !self.peer.server.alive() {
             return;
         }
-        if self.external_pending {
+        if self.external_pending || self.config_pending {
             self.stats.count("comparison_skipped_external_change_pending", 1);
             for (kind, path, pos, new_name) in reqs.iter() {
                 if self.client.effective(path).is_some() {
@@ -835,7 +848,7 @@ impl<'w> Exec<'w> {
             return;
         }
         let pre_client = self.client.clone();
-        if (self.burst_left > 0 || !self.pending_reqs.is_empty()) && !matches!(ev, Ev::Open { .. } | Ev::Change { .. } | Ev::Close { .. } | Ev::Request { .. } | Ev::Noise { .. }) {
+        if (self.burst_left > 0 || !self.pending_reqs.is_empty()) && !matches!(ev, Ev::Open { .. } | Ev::Reopen { .. } | Ev::Change { .. } | Ev::Close { .. } | Ev::Request { .. } | Ev::Noise { .. }) {
             // only plain notifications and requests travel in a burst
             self.release(at, ev, &pre_client);
             if self.violation.is_some() || self.discarded.is_some() {
@@ -856,6 +869,15 @@ impl<'w> Exec<'w> {
                     } else if self.client.disk.get(path) != Some(text) {
                         self.stats.probe("open_with_unsaved_text");
                     }
+                    self.client.open.insert(path.clone(), (text.clone(), self.version_base));
+                    self.peer.did_open(path, text, self.version_base);
+                }
+            }
+            Ev::Reopen { path, text } => {
+                if !self.client.open.contains_key(path) {
+                    sent = false;
+                } else {
+                    self.stats.probe("document_opened_again_while_open");
                     self.client.open.insert(path.clone(), (text.clone(), self.version_base));
                     self.peer.did_open(path, text, self.version_base);
                 }
@@ -951,7 +973,7 @@ impl<'w> Exec<'w> {
             }
             Ev::Burst { n } => {
                 sent = false;
-                if self.compare_fresh_on_requests && !self.external_pending {
+                if self.compare_fresh_on_requests && !self.external_pending && !self.config_pending {
                     self.burst_left = (*n).clamp(2, 8) as u32;
                     self.peer.hold = true;
                     self.stats.probe("burst_started");
@@ -963,6 +985,15 @@ impl<'w> Exec<'w> {
                 }
                 self.stats.sim_time_ms += 1000;
                 self.peer.idle();
+            }
+            Ev::ConfigOnDisk { main } => {
+                sent = false;
+                if legal_path(main) && self.client.disk.contains_key(main) {
+                    self.world.write("oal.toml", &format!("[api]\nmain = \"{main}\"\ntarget = \"out.yaml\"\n"));
+                    self.config_pending = true;
+                    self.main_now = main.clone();
+                    self.stats.probe("configuration_rewritten_behind_the_server");
+                }
             }
             Ev::Folder { add, b } => {
                 let (uri, present) = if *b { (self.world.folder_b_uri(), self.client.folder_b_present) } else { (self.world.folder_uri(), self.client.folder_present) };
@@ -1006,7 +1037,8 @@ impl<'w> Exec<'w> {
             }
             Ev::DiskDelete { path, how } => {
                 sent = false;
-                let is_main = path == "main.oal" || path == "fb/main.oal";
+                // (a main module that vanishes is another matter than an import that does)
+                let is_main = path == "main.oal" || path == "fb/main.oal" || *path == self.main_now;
                 if !is_main && !self.client.open.contains_key(path) {
                     if let Some(t) = self.client.disk.remove(path) {
                         self.client.deleted.insert(path.clone(), t);
@@ -1039,7 +1071,7 @@ impl<'w> Exec<'w> {
             Ev::Request { kind, path, pos, new_name, pipelined } => {
                 if self.client.effective(path).map(|t| !position::representable(t, *pos)).unwrap_or(true) {
                     sent = false;
-                } else if (*pipelined || self.burst_left > 0) && self.compare_fresh_on_requests && !self.external_pending && self.pipeline_request(*kind, path, *pos, new_name.as_deref(), at) {
+                } else if (*pipelined || self.burst_left > 0) && self.compare_fresh_on_requests && !self.external_pending && !self.config_pending && self.pipeline_request(*kind, path, *pos, new_name.as_deref(), at) {
                     // in the inbox; answered together with what follows
                     sent = false;
                     enqueued = true;
@@ -1071,7 +1103,7 @@ impl<'w> Exec<'w> {
                     self.rename_loop(at, path, *pos, new_name);
                 }
             }
-            Ev::Sem { .. } if self.external_pending => {
+            Ev::Sem { .. } if self.external_pending || self.config_pending => {
                 // the disk changed behind the server's back and it has not been told anything
                 // since: its view may lag, the semantic answers are not judged now
                 self.stats.count("comparison_skipped_external_change_pending", 1);
@@ -1096,7 +1128,10 @@ impl<'w> Exec<'w> {
                 }
             }
         }
-        if sent && self.unreadable.is_empty() && matches!(ev, Ev::Open { .. } | Ev::Change { .. } | Ev::Close { .. } | Ev::Folder { .. } | Ev::FolderReadd { .. }) {
+        if sent && matches!(ev, Ev::Folder { add: true, b: false } | Ev::FolderReadd { b: false }) {
+            self.config_pending = false;
+        }
+        if sent && self.unreadable.is_empty() && matches!(ev, Ev::Open { .. } | Ev::Reopen { .. } | Ev::Change { .. } | Ev::Close { .. } | Ev::Folder { .. } | Ev::FolderReadd { .. }) {
             self.external_pending = false;
         }
         if sent {
@@ -1303,6 +1338,8 @@ pub fn ev_name(ev: &Ev) -> &'static str {
         Ev::Idle => "T",
         Ev::Burst { .. } => "B",
         Ev::Noise { .. } => "N",
+        Ev::Reopen { .. } => "Oo",
+        Ev::ConfigOnDisk { .. } => "Cf",
         Ev::Request { kind, .. } => match kind {
             ReqKind::Definition => "Qd",
             ReqKind::References => "Qr",
@@ -1413,10 +1450,16 @@ pub fn probe(scn: &Scenario, k: usize) -> Option<String> {
             folder_b_present: scn2.folder_b,
             deleted: BTreeMap::new(),
         };
+        let mut main_now = "main.oal".to_string();
         for ev in scn2.events.iter().take(k + 1) {
             match ev {
                 Ev::Open { path, text } => {
                     client.open.entry(path.clone()).or_insert((text.clone(), 1));
+                }
+                Ev::Reopen { path, text } => {
+                    if client.open.contains_key(path) {
+                        client.open.insert(path.clone(), (text.clone(), 1));
+                    }
                 }
                 Ev::Change { path, changes } => {
                     if let Some((t, _)) = client.open.get_mut(path) {
@@ -1443,8 +1486,14 @@ pub fn probe(scn: &Scenario, k: usize) -> Option<String> {
                         client.folder_present = *add
                     }
                 }
+                Ev::ConfigOnDisk { main } => {
+                    if legal_path(main) && client.disk.contains_key(main) {
+                        main_now = main.clone();
+                        world.write("oal.toml", &format!("[api]\nmain = \"{main}\"\ntarget = \"out.yaml\"\n"));
+                    }
+                }
                 Ev::DiskDelete { path, how } => {
-                    if path != "main.oal" && path != "fb/main.oal" && !client.open.contains_key(path) {
+                    if path != "main.oal" && path != "fb/main.oal" && *path != main_now && !client.open.contains_key(path) {
                         if let Some(t) = client.disk.remove(path) {
                             client.deleted.insert(path.clone(), t);
                             if *how == 0 {
